@@ -165,14 +165,16 @@ def classify(unit, hspec, hres, workdir):
                 out["violations"].append(dict(label=label, desc=desc.strip('"'), loc=locs))
             elif cat == "unwind" or "unwinding assertion" in desc:
                 out["inconclusive"].append("unwinding assertion failed at %s: loop bound of the harness too small for this tree" % locs)
-            elif any(mk in (loc.get("file") or "") for mk in repo_markers) or (loc.get("file") or "").startswith("p2panda"):
-                # a panic / overflow / out-of-bounds inside p2panda's own code on an input inside
-                # the harness' precondition
+            elif any(mk in (loc.get("file") or "") for mk in repo_markers) or (loc.get("file") or "").startswith("p2panda") \
+                    or "/rustlib/src/rust/library/" in (loc.get("file") or "") or "/.cargo/registry/" in (loc.get("file") or ""):
+                # a panic / overflow / out-of-bounds inside p2panda's own code, or raised by std / a
+                # dependency on p2panda's behalf (slice index, unwrap, ...), on an input inside the harness'
+                # precondition. It only becomes a VIOLATION if the native replay really panics.
                 lab = hspec["name"].split("::")[-1]
                 out["violations"].append(dict(label="%s.panic" % PROP_OF.get(hspec["name"], "C??"),
                                               desc="%s: %s" % (cat, desc), loc=locs, kind="panic", h=lab))
             else:
-                out["inconclusive"].append("check failed outside p2panda code (%s) %s at %s" % (cat, desc, locs))
+                out["inconclusive"].append("check failed in harness/model code (%s) %s at %s" % (cat, desc, locs))
             continue
         # Undetermined etc. (Kani marks everything undetermined once an unwinding assertion failed)
         out["n_other"] = out.get("n_other", 0) + 1
